@@ -843,6 +843,8 @@ func siteOf(class string) string {
 		return "frac/active_token_list.go:Append"
 	case "search-error":
 		return "frac/active_index.go:Search"
+	case "ingest-stuck-after-transient-fsync-error", "ack-after-failed-fsync":
+		return "frac/file_writer.go:syncLoop"
 	case "append-error-under-rotation":
 		return "fracmanager/fracmanager.go:Append"
 	case "sealed-foreign-id", "sealed-missing-id":
